@@ -183,7 +183,24 @@ fn emit_tree(sink: &mut Sink, r: &mut Rng, scratch: &str) {
     let old = std::env::current_dir().unwrap();
     std::env::set_current_dir(&root).unwrap();
     let scan = ctx.scanner.scan_all_with_structure(&[PathBuf::from("src")], ctx.structure_scan_config.as_ref());
+    // the whole project as the target: the root itself is no entry of any directory, so no allow
+    // or deny list has anything to say about it
+    let root_findings: Vec<String> = ctx
+        .scanner
+        .scan_all_with_structure(&[PathBuf::from(".")], ctx.structure_scan_config.as_ref())
+        .map(|s| s.allowlist_violations.iter().filter(|v| v.path == Path::new(".")).map(|v| format!("{:?}", v.violation_type)).collect())
+        .unwrap_or_default();
     std::env::set_current_dir(old).unwrap();
+    if sink.want() {
+        sink.push(Case {
+            request: "noop".into(),
+            implementation: "-".into(),
+            pred: if root_findings.is_empty() { "ok".into() } else { format!("FAIL the project root `.` is reported by the placement rules: {}", root_findings.join(", ")) },
+            tag: "root/placement".into(),
+        });
+    } else {
+        sink.skip();
+    }
     let Ok(scan) = scan else {
         if sink.want() { sink.push(Case { request: "noop".into(), implementation: "-".into(), pred: "FAIL scan error".into(), tag: "error".into() }); } else { sink.skip(); }
         return;
